@@ -40,6 +40,18 @@ REG['C11'] = dict(
     'at least one run segment judged against the exact decimal grid',
     thorough_cfg={'grid_n_max': 400})
 
+REG['C12'] = dict(
+    oracle='c12', profiles=[('sched', 1, {'mixed_time_units': True})],
+    quick=4000, thorough=150000,
+    vacuity=['compared_instants', 'pairs_split', 'pairs_rerun',
+             'unit_switch_splits', 'rerun_same_solver', 'rerun_new_solver',
+             'segment_ended_held', 'epoch_ended_held'],
+    rule='differential simulation: (split) the scenario segments vs one run '
+    'of the total length, (rerun) the epoch after reset + re-applied initial '
+    'conditions vs the first epoch, same or new Solver; distinct = (chain '
+    'kinds, schedule ops, fired faults); non-trivial = two histories were '
+    'compared instant by instant')
+
 NOT_APPLICABLE = [
     {'property_id': 'C05',
      'reason': 'stateless function of (value, from-unit, to-unit): no schedule, clock, fault, I/O or history for a simulator to act on; its quantifier is decided by exhaustive enumeration of unit pairs, a different technique (DESIGN.md section 6)'},
